@@ -724,7 +724,7 @@ func (s *s1Sim) run() {
 			s.fail("stray_reply", culprit.site(), "%d container->host message(s) pending when %s starts: a reply nobody waited for (left by %s)", stray, op, culprit)
 			break
 		}
-		ctx, cancel := context.WithCancel(context.Background())
+		ctx, cancel := newEndableCtx(sh.cancels && c.Src.Bool(1, 3, "ends_as_deadline"))
 		allowCancel := sh.cancels && !epilogue && op.kind == "execve" && c.Src.Bool(1, 2, "maycancel")
 		if op.kind == "execve" && op.stage == "run" && allowCancel && c.Src.Bool(1, 3, "forever") {
 			op.plan = planRunForever
